@@ -53,6 +53,10 @@ func Catalogue(prop, tier string) []Cfg {
 			l.LazyAcc = true
 			add(l)
 		}
+		// fan-out: another goroutine reads the highest priority's input too
+		add(pc("v2", []uint{2, 1}, 2, "fair", []int{3, 1}, []int{3, 1}, "rr", "thief"))
+		add(pc("v2", []uint{1}, 2, "fair", []int{3}, []int{3}, "pool", "thief"))
+		add(pc("s2", []uint{2, 1}, 2, "fair", []int{3, 1}, []int{3, 1}, "", "thief"))
 		// v2, handler pool (README style), one handler more than capacity
 		add(pc("v2", []uint{2, 1}, 2, "fair", []int{2}, []int{2}, "pool", ""))
 		add(pc("v2", []uint{2, 1}, 2, "rate", []int{2}, []int{2, 1}, "pool", "extra"))
@@ -142,6 +146,41 @@ func Catalogue(prop, tier string) []Cfg {
 		add(c)
 		c = pc("v1", []uint{2, 1}, 2, "fair", []int{1}, []int{1, 1}, "pool", "")
 		c.Script, c.Ops = 3, []int{6, 7, 0}
+		add(c)
+		// every input is removed (items still in flight), then a new one is added
+		c = pc("v1", []uint{2, 1}, 2, "fair", []int{2}, []int{2, 1}, "rr", "")
+		c.Script, c.Ops = 3, []int{2, 3, 0}
+		add(c)
+		c = pc("v1", []uint{2, 1}, 3, "fair", []int{2}, []int{2, 2}, "rr", "")
+		c.Script, c.Ops = 3, []int{2, 3, 0}
+		add(c)
+	}
+	// every sequence of at most Script operations out of the default alphabet (0-4)
+	scriptsAll := func() {
+		for _, env := range []string{"rr"} {
+			n2, n21 := []int{1}, []int{1, 1}
+			if !quick {
+				n2, n21 = []int{2}, []int{2, 1}
+			}
+			c := pc("v1", []uint{2, 1}, 3, "fair", []int{2}, n2, env, "")
+			c.Script = 2
+			if !quick {
+				c.Script = 3
+			}
+			add(c)
+			c = pc("v1", []uint{2, 1}, 3, "rate", []int{2}, n21, env, "preclosed")
+			c.Script = 3
+			if !quick {
+				c.Script = 4
+			}
+			add(c)
+			c = pc("v1", []uint{2, 1}, 3, "fair", []int{0, 2}, n21, env, "")
+			c.Script = 2
+			c.OutCap = 1
+			add(c)
+		}
+		c := pc("v1", []uint{2, 1}, 3, "fair", []int{2}, []int{1, 1}, "pool", "")
+		c.Script = 2
 		add(c)
 	}
 	switch prop {
@@ -252,6 +291,16 @@ func Catalogue(prop, tier string) []Cfg {
 		}
 		add(Cfg{Harness: "limit", Q: 2, I: 3, Cap: []int{1}, N: []int{5}, Pauses: []int64{0, 1}, Delays: []int64{0, 1}, Bound: -1})
 		add(Cfg{Harness: "limit", Q: 2, I: 3, Cap: []int{5}, N: []int{4}, Mode: "prefill", Bound: -1})
+		// an item is never released: the discipline must not announce termination, and if it
+		// does, nothing of it may stay behind
+		for _, d := range []string{"v2", "v1"} {
+			wc := pc(d, []uint{2, 1}, 2, "fair", []int{2}, []int{2, 1}, "rr", "withhold")
+			wc.R = 2
+			add(wc)
+			wc = pc(d, []uint{1}, 2, "fair", []int{2}, []int{2}, "rr", "withhold")
+			wc.R = 1
+			add(wc)
+		}
 		// v1: the context given in the options is the user's own implementation of the interface
 		for _, stop := range []string{"", "stop", "cancel"} {
 			c := pc("v1", []uint{2, 1}, 2, "fair", []int{2}, []int{2, 1}, "pool", "")
@@ -328,6 +377,8 @@ func Catalogue(prop, tier string) []Cfg {
 			sat("v2", []uint{3, 2, 1}, 3, "low", 4, "rr")
 		}
 	case "C06":
+		scripts() // additions and removals must not stall the discipline either
+		scriptsAll()
 		// single active priority with n >= H+1, sparse inputs, skewed priorities,
 		// unbuffered inputs, minimum H
 		add(pc("v2", []uint{2, 1}, 2, "fair", []int{3, 0}, []int{3, 0}, "rr", ""))
@@ -442,31 +493,7 @@ func Catalogue(prop, tier string) []Cfg {
 			g = pc("v1", []uint{3, 2, 1}, 3, "fair", []int{1}, []int{1, 0, 1}, env, "gracefulfirst")
 			add(g)
 		}
-		for _, env := range []string{"rr"} {
-			n2, n21 := []int{1}, []int{1, 1}
-			if !quick {
-				n2, n21 = []int{2}, []int{2, 1}
-			}
-			c := pc("v1", []uint{2, 1}, 3, "fair", []int{2}, n2, env, "")
-			c.Script = 2
-			if !quick {
-				c.Script = 3
-			}
-			add(c)
-			c = pc("v1", []uint{2, 1}, 3, "rate", []int{2}, n21, env, "preclosed")
-			c.Script = 3
-			if !quick {
-				c.Script = 4
-			}
-			add(c)
-			c = pc("v1", []uint{2, 1}, 3, "fair", []int{0, 2}, n21, env, "")
-			c.Script = 2
-			c.OutCap = 1
-			add(c)
-		}
-		c := pc("v1", []uint{2, 1}, 3, "fair", []int{2}, []int{1, 1}, "pool", "")
-		c.Script = 2
-		add(c)
+		scriptsAll()
 		// "after AddInput returns, elements of ch are delivered" while the other inputs are
 		// saturated for ever: new priority, replaced channel, removed and registered again
 		for _, e := range []struct {
@@ -737,6 +764,14 @@ func Catalogue(prop, tier string) []Cfg {
 			add(c)
 			add(lc(1, 3, 2, 3, []int64{0, 1}, []int64{0, 1}, "outputs"))
 			add(lc(2, 2, 0, 4, []int64{0, 2}, []int64{0}, "outputs"))
+			// fan-out: a second goroutine reads the same input channel
+			for _, q := range []uint64{1, 2, 3} {
+				t := lc(q, 3, 3, 4, []int64{0, 2}, []int64{0, 1}, "thief")
+				t.R = 2
+				add(t)
+				t = lc(q, 2, 4, 4, nil, []int64{0}, "thief")
+				add(t)
+			}
 		}
 	case "C13":
 		// re-entrancy of the conversions (Engine A part; the input domain is Engine B's)
